@@ -433,7 +433,7 @@ func genCorruptArchive(t *rapid.T) BytesCase {
 			ms = append(ms, genArMember(t, "m"))
 		}
 	}
-	op := rapid.SampledFrom([]string{"column", "column", "column", "columns", "longnames", "tarlevel", "magic", "truncate", "duplicate", "reorder", "decoy", "unopenable", "padding", "globalmagic", "none"}).Draw(t, "op")
+	op := rapid.SampledFrom([]string{"column", "column", "column", "columns", "longnames", "tarlevel", "magic", "truncate", "duplicate", "reorder", "decoy", "unopenable", "padding", "globalmagic", "none", "versionmember", "bothkinds"}).Draw(t, "op")
 	note := op
 	switch op {
 	case "duplicate":
@@ -446,6 +446,33 @@ func genCorruptArchive(t *rapid.T) BytesCase {
 		ms = append(ms[:j], append([]ArMember{dup}, ms[j:]...)...)
 	case "reorder":
 		ms = rapid.Permutation(ms).Draw(t, "perm")
+	case "versionmember":
+		// debian-binary says 2.0 and then goes on (dpkg reads the first line; later lines are for
+		// later minor versions), or says it in another way
+		for i := range ms {
+			if ms[i].Name == "debian-binary" {
+				ms[i].Data = []byte(rapid.SampledFrom([]string{"2.0\n\n", "2.0\nextra\n", "2.0\n" + strings.Repeat("x", 4200) + "\n", "2.1\n", "2.0", "2.0\r\n", "2\n", "2.0\n\x00", "2.0\n2.0\n", "2.00\n", " 2.0\n", "2.0 \n"}).Draw(t, "vmText"))
+			}
+		}
+	case "bothkinds":
+		// a second member of BOTH kinds, each under a name of its own: what the loader says about
+		// such a file it says every time
+		for _, base := range []string{"control", "data"} {
+			for k := rapid.IntRange(1, 2).Draw(t, "bkN"); k > 0; k-- {
+				extra := ArMember{Name: base + rapid.SampledFrom([]string{".tar", ".tar.gz", ".txt", ".sig", ".tar.Z", ".orig", "."}).Draw(t, "bkExt"), Mode: "100644", MTime: 1, Data: []byte("x")}
+				dupName := false
+				for _, e := range ms {
+					if e.Name == extra.Name {
+						dupName = true
+					}
+				}
+				if dupName {
+					continue
+				}
+				at := rapid.IntRange(0, len(ms)).Draw(t, "bkAt")
+				ms = append(ms[:at], append([]ArMember{extra}, ms[at:]...)...)
+			}
+		}
 	case "unopenable":
 		// the control or the data member is there but cannot be opened: a name that is no tarball,
 		// or a compressed member whose stream header is missing or damaged. The complaint is the
@@ -686,7 +713,7 @@ func genCorruptArchive(t *rapid.T) BytesCase {
 
 var specC15Corrupt = Register(&Spec[BytesCase]{
 	Prop: "C15", Name: "corrupt",
-	Rule:  "structured corruption of valid artefacts (C13 archives and C14 packages with stored/gzip members): one header column (name, mtime, uid, gid, mode, size, magic) of one member overwritten with negative, '+'-signed, huge, blank, non-numeric, NUL, hex or overflowing text; 2..4 numeric columns of one header made non-numeric at once; a member renamed '//' and later ones '/<offset>' (GNU long-name table and references); the control member replaced by a stored tar whose './control' entry is a GNU sparse file of 2^20 / 2^40 / 2^62 made-up bytes, a directory, a symlink, or cut short, or which carries - as ./control or next to it - a PAX-style sparse entry of 2^40 made-up bytes (format 1.0; as ./control also the older spellings without a version record - 0.1 with the real size under 'size' or 'realsize', 0.0 with offset/numbytes pairs - with the control text behind a hole of 2^33, 2^40 or 2^62 bytes), or a regular entry (./control or the file in front of it) whose base-256 size field claims 2^55 or 2^62 bytes, or replaced by a few KiB of gzip whose './control' is one field with 500 000 to 800 000 continuation lines (it has to be read in a time that does not grow with the square of that), or whose Depends is one token of 600 000 to 1 000 000 bytes, or whose './control' comes wrapped in a clearsign frame (with / without Hash: header, empty line, signature, END line); one or both header magic bytes changed; truncation at a generated offset; a member duplicated (same or changed content), members reordered, a decoy control.*/data.* member with another extension (optionally a tar with 'Package: evil') inserted; the control or data member made unopenable (renamed to .txt / .bin, emptied, its gzip header damaged); a padding byte added or removed; a global magic byte flipped. Oracle: no panic; the Next() loop ends in io.EOF or an error within len/60+2 steps; every returned member sits behind a header ending 0x60 0x0A, has Size >= 0 and a reader delivering exactly Size bytes - read through a plain io.ReaderAt that does not tell its size, and again through a bytes.Reader (Size), an io.SectionReader window of a larger buffer and (one input in eight) a file on disk (Stat); deb.Load stays within a read budget and returns within 20 s; seven iterations / loads of the same bytes, and one through an io.SectionReader window of a larger buffer with a valid archive behind it, give the same outcome (the same error text, or the same extensions, control identity and member index). Non-trivial: >= 1 member returned or a first header parsed; distinct by bytes.",
+	Rule:  "structured corruption of valid artefacts (C13 archives and C14 packages with stored/gzip members): one header column (name, mtime, uid, gid, mode, size, magic) of one member overwritten with negative, '+'-signed, huge, blank, non-numeric, NUL, hex or overflowing text; 2..4 numeric columns of one header made non-numeric at once; debian-binary saying 2.0 and going on (a second line, 4 KiB more, NUL) or saying it another way ('2.0' without line end, CRLF, '2.00', '2', ' 2.0'); further members of BOTH kinds under names of their own (control.txt and data.sig, control.tar and data.tar.gz ...) at any positions; a member renamed '//' and later ones '/<offset>' (GNU long-name table and references); the control member replaced by a stored tar whose './control' entry is a GNU sparse file of 2^20 / 2^40 / 2^62 made-up bytes, a directory, a symlink, or cut short, or which carries - as ./control or next to it - a PAX-style sparse entry of 2^40 made-up bytes (format 1.0; as ./control also the older spellings without a version record - 0.1 with the real size under 'size' or 'realsize', 0.0 with offset/numbytes pairs - with the control text behind a hole of 2^33, 2^40 or 2^62 bytes), or a regular entry (./control or the file in front of it) whose base-256 size field claims 2^55 or 2^62 bytes, or replaced by a few KiB of gzip whose './control' is one field with 500 000 to 800 000 continuation lines (it has to be read in a time that does not grow with the square of that), or whose Depends is one token of 600 000 to 1 000 000 bytes, or whose './control' comes wrapped in a clearsign frame (with / without Hash: header, empty line, signature, END line); one or both header magic bytes changed; truncation at a generated offset; a member duplicated (same or changed content), members reordered, a decoy control.*/data.* member with another extension (optionally a tar with 'Package: evil') inserted; the control or data member made unopenable (renamed to .txt / .bin, emptied, its gzip header damaged); a padding byte added or removed; a global magic byte flipped. Oracle: no panic; the Next() loop ends in io.EOF or an error within len/60+2 steps; every returned member sits behind a header ending 0x60 0x0A, has Size >= 0 and a reader delivering exactly Size bytes - read through a plain io.ReaderAt that does not tell its size, and again through a bytes.Reader (Size), an io.SectionReader window of a larger buffer and (one input in eight) a file on disk (Stat); deb.Load stays within a read budget and returns within 20 s; seven iterations / loads of the same bytes, and one through an io.SectionReader window of a larger buffer with a valid archive behind it, give the same outcome (the same error text, or the same extensions, control identity and member index). Non-trivial: >= 1 member returned or a first header parsed; distinct by bytes.",
 	Check: checkBytesCase,
 })
 
